@@ -93,12 +93,14 @@ theorem play_irrev (e : Env) (s : St) (lh : Int) (b : Block) :
     · simp
     · split
       · simp
-      · simp only
-        split
-        · exact ⟨nextIrrev_mono _ _ _, fun _ => rfl⟩
-        · rename_i hne _
-          exact ⟨Int.le_refl _, fun h => absurd h (fun h2 => hne h2)⟩
-        · exact ⟨Int.le_refl _, fun h => absurd h (by simp)⟩
+      · split
+        · simp
+        · simp only
+          split
+          · exact ⟨nextIrrev_mono _ _ _, fun _ => rfl⟩
+          · rename_i hne _
+            exact ⟨Int.le_refl _, fun h => absurd h (fun h2 => hne h2)⟩
+          · exact ⟨Int.le_refl _, fun h => absurd h (by simp)⟩
 
 private theorem pfm_go_irrev (e : Env) (lh : Int) (b : Block) (l : List Nat) (s s' : St)
     (h : playForMiner.go e lh b l s = some s') : s'.irrev = s.irrev := by
